@@ -89,6 +89,14 @@ end`},
   emit("ctxL", $I, ctx.status)
   tick()
 end`},
+	{"abandon", `function()
+  local g = coroutine.wrap(function()
+    runtime.callcontext({kill = {cpu = 60}}, function() emit("ab", $I) coroutine.yield() end)
+  end)
+  g()
+  $F()
+  emit("abandon", $I)
+end`},
 	{"throw", `function()
   local ok, e = pcall(function() $F() error({code = $I}) end)
   emit("throw", $I, ok, type(e))
@@ -206,9 +214,11 @@ func gransNamed(names ...string) []int {
 // sweepPrograms lists the finite programs of a tier, simplest first.
 func sweepPrograms(tier string) []program {
 	var out []program
+	// granularity outermost: consecutive indices (which go to different workers)
+	// then cost about the same, whatever the number of workers
 	add := func(d int, gs []int) {
-		for _, n := range nests(d) {
-			for _, g := range gs {
+		for _, g := range gs {
+			for _, n := range nests(d) {
 				out = append(out, program{nest: n, gran: g})
 			}
 		}
